@@ -313,6 +313,25 @@ def run(tier, seed, replay):
                     RHOm = messy_unique(pattern(rng, shape, str(rng.choice(kinds))))
                     lines.append("C01.expect_dia " + json.dumps({"op": dia_json(OPm), "state": dia_json(RHOm)}))
                     expect.append(("value", complex(_expect.expect_dia(OPm, RHOm))))
+        # expect_csr (ket and density-matrix loops) and expect_super_csr: operator rows unsorted, states in the library's form
+        if shape[0] == shape[1]:
+            _expect = importlib.import_module("qutip.core.data.expect")
+
+            def csr_json(C):
+                return {"rows": C.shape[0], "cols": C.shape[1], "r": csr_rows(C)}
+            OPc = build(a, "csr_unsorted", rng)
+            kv = pattern(rng, (shape[0], 1), str(rng.choice(["full", "random"])))
+            Kc = _data.to(_data.CSR, _data.Dense(kv))
+            lines.append("C01.expect_csr " + json.dumps({"op": csr_json(OPc), "state": csr_json(Kc)}))
+            expect.append(("value", complex(_expect.expect_csr(OPc, Kc))))
+            if shape[0] > 1:
+                RHOc = build(pattern(rng, shape, str(rng.choice(kinds))), "csr_unsorted", rng)
+                lines.append("C01.expect_csr " + json.dumps({"op": csr_json(OPc), "state": csr_json(RHOc)}))
+                expect.append(("value", complex(_expect.expect_csr(OPc, RHOc))))
+            nn = int(round(np.sqrt(shape[0])))
+            if nn * nn == shape[0]:
+                lines.append("C01.expect_super_csr " + json.dumps({"op": csr_json(OPc), "state": csr_json(Kc), "n": nn}))
+                expect.append(("value", complex(_expect.expect_super_csr(OPc, Kc))))
     model = core.run_driver(lines)
     ndis, first = 0, None
     for line, ex, m in zip(lines, expect, model):
